@@ -12,6 +12,7 @@ E2: `sample(rng=ChoiceRandom(explorer))` explored over all answers of the genera
 generators for the "equally seeded => identical sequence" clause.
 """
 import math
+import numpy as np
 import random as _random          # ONLY random.Random(seed) (+ fixing/restoring the global state) for the equal-seed clause;
                                   # never used to generate cases
 from fractions import Fraction as F
@@ -119,7 +120,7 @@ def score_vectors(tier):
 SHIFTS = [F(-1000), F(-1), F(1, 8), F(1), F(1000)]
 LIK = [F(0), F(1, 2), F(1)]
 REALS = [F(-2), F(0), F(3, 2)]
-SCALARS = [0, 0.5, 1, 2, 3.0]
+SCALARS = [0, 0.5, 1, 2, 3.0, np.float64(0.5), np.float64(2.0)]      # also numpy scalars (what table-backed probabilities are)
 MIXW = [(F(1, 2), F(1, 2)), (F(1, 4), F(3, 4)), (F(2), F(1)), (F(0), F(1))]
 PATTERNS = ('same', 'partial', 'disjoint')
 
@@ -200,7 +201,7 @@ def bounds(tier):
             'softmax_score_vectors': ns, 'label_sets_per_vector': 2 if tier == 'quick' else 5,
             'second_operands': len(BMENU) if tier == 'quick' else 'all quick unary specs', 'overlap_patterns': list(PATTERNS),
             'likelihood_values': ['0', '1/2', '1', 'False', 'True'], 'real_values': ['-2', '0', '3/2'],
-            'kernel_targets': 4 if tier == 'quick' else 5, 'scalars': SCALARS, 'softmax_shifts': [str(s) for s in SHIFTS],
+            'kernel_targets': 4 if tier == 'quick' else 5, 'scalars': [repr(x) for x in SCALARS], 'softmax_shifts': [str(s) for s in SHIFTS],
             'sampling': 'E2 all answers (1 draw, 2 draws, k=2); seeds {0,1,2,VERIF_SEED} x 5 draws'}
 
 
@@ -587,7 +588,7 @@ def op_normalize_scale(c, d, spec, ref):
             det = dict(det0, scalar=repr(s), form=side)
             ok, res = c.call('scale', (lambda: d * s) if side == 'd*c' else (lambda: s * d), det)
             if ok:
-                c.same_function('scale', res, {e: p * F(s) for e, p in ref.items()}, det)
+                c.same_function('scale', res, {e: p * F(float(s)) for e, p in ref.items()}, det)
 
 
 def kernel_targets(tier):
@@ -906,6 +907,15 @@ def check_binary(item, tier):
         ok, res = c.call('scaled_mixture', fn, det)
         if ok:
             c.same_function('scaled_mixture', res, o_mix(ra, rb, wa, wb), det)
+    # the augmented spelling of the mixture (on freshly built operands: an in-place operator may change its left operand)
+    for name, s1, v1, s2, v2, r1, r2 in (('A|=B', sa, va, sb, vb, ra, rb), ('B|=A', sb, vb, sa, va, rb, ra)):
+        def aug():
+            Z, W = build(s1, v1)[0], build(s2, v2)[0]
+            Z |= W
+            return Z
+        ok, res = c.call('augmented_mixture', aug, dict(det0, order=name))
+        if ok:
+            c.same_function('augmented_mixture', res, o_mix(r1, r2), dict(det0, order=name))
     if len(posa) >= 2 and len(posb) >= 2:
         r.nontriv(('joint', sa, sb))
     if any(e in rb and rb[e] > 0 for e in posa):
